@@ -63,6 +63,10 @@ use object_store::path::Path;
 use prost::Message;
 
 mod conflict_resolver;
+#[cfg(feature = "verif-hooks")]
+pub mod verif_hooks {
+    pub use super::conflict_resolver::TransactionRebase;
+}
 #[cfg(all(feature = "dynamodb_tests", test))]
 mod dynamodb;
 #[cfg(test)]
